@@ -133,8 +133,8 @@ func vfH_upgrade_logic() {
 	hijackFails := false
 	faultAt := -1
 	dontcare := false
-	valid := true   // the request is a valid opening handshake and the policy allows it
-	expect := 0     // expected HTTP error status when a single condition fails (0: not determined)
+	valid := true // the request is a valid opening handshake and the policy allows it
+	expect := 0   // expected HTTP error status when a single condition fails (0: not determined)
 	appExtErr := false
 	// two dimensions are varied, the others keep their valid defaults
 	d1 := vfChoose(12)
@@ -689,7 +689,7 @@ func vfH_origin_urls() {
 	case 9:
 		// two arbitrary bytes in place of two characters of the host: every look-alike,
 		// delimiter, percent sign, control or non-ASCII byte the real parser may meet
-		rep := vfParam("rep", symBytes) // characters replaced by the symBytes arbitrary bytes
+		rep := vfParam("rep", symBytes)                 // characters replaced by the symBytes arbitrary bytes
 		k := vfPick([]int{0, 1, len(hostNoPort) - rep}) // at the start, inside, and right before the port / end
 		ohost = hostNoPort[:k] + vfString(symBytes) + hostNoPort[k+rep:] + port
 	case 0:
